@@ -182,7 +182,7 @@ class C09(PipelineProp):
         inp = P.gen_input(rng, style=rng.choice(["tpf", "fasta"]), hap_names=two, nscaf=rng.randint(2, 6))
         ptx, pieces = P.gen_pretext(rng, inp, "edit", tagger=make_tagger(two))
         return {"gen": "tagged/" + (("2hap+primary" if ptx.get("prim") else "2hap") if two else "1hap"), "input": inp, "pretext": ptx,
-                "prefix": "SUPER_", "pieces": pieces}
+                "prefix": "SUPER_", "pieces": pieces, **({"pre_run": True} if rng.random() < 0.25 else {})}
 
     def oracle(self, case, obs):
         if "err" not in obs and "cli" in case:
